@@ -1,13 +1,470 @@
-(* HashProofs.v — proofs about the hashing / equality model (property C10). *)
+(* HashProofs.v — proofs about the hashing / equality model (property C10).
+   Main results (restated in Properties_C10.v):
+     v_eq_hash        eq(a,b) implies hash(a) = hash(b) for all well-formed values, any nesting, across kinds
+     v_cmp_refl       cmp(a,a) = 0 (Float: also inf - inf = NaN; Table: every key finds itself)
+     copy_eq_hash     copy(a) is eq to a and hashes the same
+     assign_eq_hash   assign(dst, src) is eq to src (or, Ref vs Box, not comparable) and hashes the same
+     map_perm_eq      Table equality and hash do not depend on the order of the bindings (slot order)
+     table_copy_perm  at slot level (TableModel): Table_Assign yields the same bindings in some order
+   and the refutations of the pinned variants (float_hash_raw_refuted, table_walk_refuted). *)
 From Coq Require Export List NArith ZArith Bool.
-From Coq Require Import Lia.
-From CelloV Require Import HashModel.
+From Coq Require Import Lia Permutation Arith.
+From CelloV Require Import HashModel HashFloat.
 Import ListNotations.
 
+Arguments hash_data : simpl never.
+Arguments float_cmp : simpl never.
+Arguments float_hash : simpl never.
+Arguments le_split : simpl never.
+
+Lemma some_inj (A : Type) (x y : A) : Some x = Some y -> x = y.
+Proof. intros E. injection E as E. exact E. Qed.
+
+(* ------------------------------------------------------------------ induction on nested values *)
+Section ValueInd.
+  Variable P : value -> Prop.
+  Hypothesis Hint : forall z, P (VInt z).
+  Hypothesis Hflt : forall b, P (VFloat b).
+  Hypothesis Hstr : forall s, P (VStr s).
+  Hypothesis Htyp : forall s, P (VType s).
+  Hypothesis Href : forall p, P (VRef p).
+  Hypothesis Hbox : forall p, P (VBox p).
+  Hypothesis Hblob : forall bs, P (VBlob bs).
+  Hypothesis Hseq : forall k l, Forall P l -> P (VSeq k l).
+  Hypothesis Hmap : forall k mp, Forall (fun kv => P (fst kv) /\ P (snd kv)) mp -> P (VMap k mp).
+
+  Fixpoint value_ind' (a : value) : P a :=
+    match a with
+    | VInt z => Hint z | VFloat b => Hflt b | VStr s => Hstr s | VType s => Htyp s
+    | VRef p => Href p | VBox p => Hbox p | VBlob bs => Hblob bs
+    | VSeq k l => Hseq k l ((fix go (l : list value) : Forall P l :=
+                               match l with
+                               | [] => Forall_nil _
+                               | x :: t => Forall_cons x (value_ind' x) (go t)
+                               end) l)
+    | VMap k mp => Hmap k mp ((fix go (l : list (value * value)) : Forall (fun kv => P (fst kv) /\ P (snd kv)) l :=
+                                 match l with
+                                 | [] => Forall_nil _
+                                 | kv :: t => Forall_cons kv (conj (value_ind' (fst kv)) (value_ind' (snd kv))) (go t)
+                                 end) mp)
+    end.
+End ValueInd.
+
+(* ------------------------------------------------------------------ scalars *)
+Lemma bytes_cmp_eq a : forall b, bytes_cmp a b = 0%Z -> a = b.
+Proof.
+  induction a as [|x a IH]; intros [|y b] H; simpl in H; try discriminate; try reflexivity.
+  destruct (x <? y)%N eqn:E1; [discriminate|]. destruct (y <? x)%N eqn:E2; [discriminate|].
+  apply N.ltb_ge in E1, E2. f_equal; [lia|auto].
+Qed.
+
+Lemma bytes_cmp_refl a : bytes_cmp a a = 0%Z.
+Proof. induction a as [|x a IH]; simpl; [reflexivity|]. rewrite N.ltb_irrefl. exact IH. Qed.
+
+Lemma int_cmp_eq a b : int_cmp a b = 0%Z -> a = b.
+Proof.
+  unfold int_cmp. destruct (a <? b)%Z eqn:E1; [discriminate|]. destruct (b <? a)%Z eqn:E2; [discriminate|].
+  intros _. apply Z.ltb_ge in E1, E2. lia.
+Qed.
+
+Lemma int_cmp_refl a : int_cmp a a = 0%Z.
+Proof. unfold int_cmp. rewrite Z.ltb_irrefl. reflexivity. Qed.
+
+Section Main.
+  Variables (m r seed : N) (tl : bool).
+  Notation H := (v_hash m r seed true).
+  Notation C := (v_cmp tl).
+
+  Lemma v_cmp_scalar a b : scalar a = true -> C a b = s_cmp a b.
+  Proof. destruct a; intros E; try discriminate; reflexivity. Qed.
+
+  Lemma wf_float b : v_wf (VFloat b) = true -> (b < M64)%N /\ f_is_nan b = false.
+  Proof.
+    cbn [v_wf]. intros E. apply andb_true_iff in E. destruct E as [E1 E2].
+    apply N.ltb_lt in E1. apply negb_true_iff in E2. auto.
+  Qed.
+
+  (* eq implies equal hash on values that are not containers *)
+  Lemma s_cmp_hash a b : v_wf a = true -> v_wf b = true -> s_cmp a b = Some 0%Z -> H a = H b.
+  Proof.
+    intros Wa Wb E.
+    destruct a, b; cbn [s_cmp] in E; try discriminate; cbn [v_hash].
+    - apply some_inj in E. apply int_cmp_eq in E. subst. reflexivity.
+    - apply some_inj in E. apply wf_float in Wa, Wb. apply float_eq_hash; tauto.
+    - apply some_inj in E. apply bytes_cmp_eq in E. subst. reflexivity.
+    - apply some_inj in E. apply bytes_cmp_eq in E. subst. reflexivity.
+    - apply some_inj in E. apply bytes_cmp_eq in E. subst. reflexivity.
+    - apply some_inj in E. apply bytes_cmp_eq in E. rewrite E. reflexivity.
+    - apply some_inj in E. apply bytes_cmp_eq in E. rewrite E. reflexivity.
+    - destruct (length bytes =? length bytes0); [|discriminate].
+      apply some_inj in E. apply bytes_cmp_eq in E. subst. reflexivity.
+  Qed.
+
+  Lemma s_cmp_refl a : scalar a = true -> v_wf a = true -> s_cmp a a = Some 0%Z.
+  Proof.
+    destruct a; intros Sa Wa; try discriminate; cbn [s_cmp].
+    - rewrite int_cmp_refl. reflexivity.
+    - apply wf_float in Wa. rewrite float_cmp_refl by tauto. reflexivity.
+    - rewrite bytes_cmp_refl. reflexivity.
+    - rewrite bytes_cmp_refl. reflexivity.
+    - rewrite bytes_cmp_refl. reflexivity.
+    - rewrite bytes_cmp_refl. reflexivity.
+    - rewrite Nat.eqb_refl, bytes_cmp_refl. reflexivity.
+  Qed.
+
+  (* keys admitted in maps: eq is Leibniz equality *)
+  Lemma key_eq k' k : key_ok k' = true -> key_ok k = true -> s_cmp k' k = Some 0%Z -> k' = k.
+  Proof.
+    destruct k', k; intros K1 K2 E; try discriminate; cbn [s_cmp] in E; apply some_inj in E.
+    - apply int_cmp_eq in E. subst. reflexivity.
+    - apply bytes_cmp_eq in E. subst. reflexivity.
+  Qed.
+
+  Lemma key_refl k : key_ok k = true -> s_cmp k k = Some 0%Z.
+  Proof.
+    destruct k; intros K; try discriminate; cbn [s_cmp].
+    - rewrite int_cmp_refl. reflexivity.
+    - rewrite bytes_cmp_refl. reflexivity.
+  Qed.
+
+  Lemma key_scalar k : key_ok k = true -> scalar k = true.
+  Proof. destruct k; intros; try discriminate; reflexivity. Qed.
+
+  (* ---------------------------------------------------------------- the parallel walk *)
+  Lemma walk_zero A B (c : A -> B -> option Z) : forall l1 l2,
+    walk A B c l1 l2 = Some 0%Z -> Forall2 (fun x y => c x y = Some 0%Z) l1 l2.
+  Proof.
+    induction l1 as [|x l1 IH]; intros [|y l2] E; simpl in E; try discriminate; [constructor|].
+    destruct (c x y) as [d|] eqn:Ec; [|discriminate].
+    destruct (d <? 0)%Z eqn:E1; [discriminate|]. destruct (0 <? d)%Z eqn:E2; [discriminate|].
+    apply Z.ltb_ge in E1, E2. assert (d = 0%Z) by lia. subst d.
+    constructor; auto.
+  Qed.
+
+  Lemma walk_refl A (c : A -> A -> option Z) l :
+    Forall (fun x => c x x = Some 0%Z) l -> walk A A c l l = Some 0%Z.
+  Proof. induction 1 as [|x l Hx _ IH]; simpl; [reflexivity|]. rewrite Hx. simpl. exact IH. Qed.
+
+  Lemma pair_c_zero (c : value -> value -> option Z) x y :
+    pair_c c x y = Some 0%Z -> c (fst x) (fst y) = Some 0%Z /\ c (snd x) (snd y) = Some 0%Z.
+  Proof.
+    unfold pair_c. destruct (c (fst x) (fst y)) as [d|]; [|discriminate].
+    destruct (d <? 0)%Z eqn:E1; [discriminate|]. destruct (0 <? d)%Z eqn:E2; [discriminate|].
+    apply Z.ltb_ge in E1, E2. assert (d = 0%Z) by lia. subst d. auto.
+  Qed.
+
+  (* ---------------------------------------------------------------- XOR folds *)
+  Definition sh (l : list value) : N := fold_right (fun x acc => N.lxor acc (H x)) 0%N l.
+  Definition eh (kv : value * value) : N := N.lxor (H (fst kv)) (H (snd kv)).
+  Definition mh (mp : list (value * value)) : N :=
+    fold_right (fun kv acc => N.lxor (N.lxor acc (H (fst kv))) (H (snd kv))) 0%N mp.
+
+  Lemma hash_seq k l : H (VSeq k l) = sh l.
+  Proof. reflexivity. Qed.
+  Lemma hash_map k mp : H (VMap k mp) = mh mp.
+  Proof. reflexivity. Qed.
+
+  Lemma mh_cons kv l : mh (kv :: l) = N.lxor (mh l) (eh kv).
+  Proof. unfold mh, eh. simpl. rewrite N.lxor_assoc. reflexivity. Qed.
+
+  Lemma mh_app l1 l2 : mh (l1 ++ l2) = N.lxor (mh l1) (mh l2).
+  Proof.
+    induction l1 as [|a l1 IH]; [simpl; try rewrite N.lxor_0_l; reflexivity|].
+    rewrite <- app_comm_cons, !mh_cons, IH.
+    rewrite !N.lxor_assoc. f_equal. apply N.lxor_comm.
+  Qed.
+
+  (* ---------------------------------------------------------------- association lists with Leibniz keys *)
+  Definition keys (mp : list (value * value)) := map fst mp.
+  Definition keysok (mp : list (value * value)) := Forall (fun kv => key_ok (fst kv) = true) mp.
+
+  Lemma keysok_in mp kv : keysok mp -> In kv mp -> key_ok (fst kv) = true.
+  Proof. unfold keysok. rewrite Forall_forall. auto. Qed.
+
+  Lemma m_get_none mp k : keysok mp -> key_ok k = true -> (m_get mp k = None <-> ~ In k (keys mp)).
+  Proof.
+    intros Hk Kk. induction Hk as [|[k' v'] mp Hk' _ IH]; simpl; [tauto|].
+    simpl in Hk'. destruct (s_cmp k' k) as [d|] eqn:E.
+    - destruct d as [|p|p].
+      + apply key_eq in E; auto. subst. split; [discriminate|]. intros N. exfalso. apply N. auto.
+      + rewrite IH. split; [|tauto]. intros N [->|I]; [|tauto]. rewrite key_refl in E by auto. discriminate.
+      + rewrite IH. split; [|tauto]. intros N [->|I]; [|tauto]. rewrite key_refl in E by auto. discriminate.
+    - rewrite IH. split; [|tauto]. intros N [->|I]; [|tauto]. rewrite key_refl in E by auto. discriminate.
+  Qed.
+
+  Lemma m_get_some mp k v : keysok mp -> key_ok k = true -> m_get mp k = Some v -> In (k, v) mp.
+  Proof.
+    intros Hk Kk. induction Hk as [|[k' v'] mp Hk' _ IH]; simpl; [discriminate|].
+    simpl in Hk'. destruct (s_cmp k' k) as [d|] eqn:E; [destruct d as [|p|p]|]; auto.
+    intros E'. injection E' as <-. apply key_eq in E; auto. subst. auto.
+  Qed.
+
+  Lemma m_get_in mp k v : keysok mp -> key_ok k = true -> NoDup (keys mp) -> In (k, v) mp -> m_get mp k = Some v.
+  Proof.
+    intros Hk Kk. induction Hk as [|[k' v'] mp Hk' Hk IH]; simpl; [tauto|].
+    simpl in Hk'. intros ND [E|I].
+    - injection E as -> ->. rewrite key_refl by auto. reflexivity.
+    - inversion ND as [|? ? Nin ND']; subst.
+      destruct (s_cmp k' k) as [d|] eqn:E; [destruct d as [|p|p]|]; auto.
+      apply key_eq in E; auto. subst. exfalso. apply Nin. apply (in_map fst) in I. exact I.
+  Qed.
+
+  Lemma keys_distinct_nodup mp : keysok mp -> keys_distinct mp = true -> NoDup (keys mp).
+  Proof.
+    intros Hk. induction Hk as [|[k v] mp Hk' Hk IH]; simpl; [constructor|].
+    simpl in Hk'. destruct (m_get mp k) eqn:E; [discriminate|]. intros D.
+    constructor; auto. apply m_get_none in E; auto.
+  Qed.
+
+  Lemma nodup_keys_distinct mp : keysok mp -> NoDup (keys mp) -> keys_distinct mp = true.
+  Proof.
+    intros Hk. induction Hk as [|[k v] mp Hk' Hk IH]; simpl; [reflexivity|].
+    simpl in Hk'. intros ND. inversion ND as [|? ? Nin ND']; subst.
+    apply m_get_none in Nin; auto. rewrite Nin. auto.
+  Qed.
+
+  (* two association lists with the same keys and hash-equal values have the same XOR *)
+  Lemma match_hash : forall mp mp', NoDup (keys mp) -> NoDup (keys mp') -> length mp = length mp' ->
+    (forall k v, In (k, v) mp -> exists v', In (k, v') mp' /\ H v = H v') -> mh mp = mh mp'.
+  Proof.
+    induction mp as [|[k v] rest IH]; intros mp' ND ND' L M.
+    - destruct mp'; [reflexivity|discriminate].
+    - destruct (M k v (or_introl eq_refl)) as [v' [I Hv]].
+      destruct (in_split _ _ I) as [l1 [l2 ->]].
+      inversion ND as [|? ? Nin NDr]; subst.
+      unfold keys in ND'. rewrite map_app in ND'. simpl in ND'.
+      pose proof (NoDup_remove_1 _ _ _ ND') as ND''. pose proof (NoDup_remove_2 _ _ _ ND') as Nk.
+      rewrite <- map_app in ND'', Nk.
+      assert (E : mh rest = mh (l1 ++ l2)).
+      { apply IH; auto.
+        - rewrite app_length in *. simpl in L. lia.
+        - intros k2 v2 I2. destruct (M k2 v2 (or_intror I2)) as [v2' [I2' Hv2]].
+          exists v2'. split; [|exact Hv2].
+          apply in_app_or in I2'. apply in_or_app. destruct I2' as [|[E|]]; auto.
+          injection E as -> ->. exfalso. apply Nin. apply (in_map fst) in I2. exact I2. }
+      rewrite mh_cons, E, !mh_app, mh_cons. unfold eh. simpl. rewrite Hv.
+      rewrite !N.lxor_assoc. reflexivity.
+  Qed.
+
+  (* ---------------------------------------------------------------- well-formedness, unpacked *)
+  Lemma wf_seq k l : v_wf (VSeq k l) = true -> Forall (fun x => v_wf x = true) l.
+  Proof. cbn [v_wf]. intros E. apply Forall_forall. rewrite forallb_forall in E. exact E. Qed.
+
+  Lemma wf_map k mp : v_wf (VMap k mp) = true ->
+    keysok mp /\ Forall (fun kv => v_wf (fst kv) = true /\ v_wf (snd kv) = true) mp /\ NoDup (keys mp).
+  Proof.
+    cbn [v_wf]. intros E. apply andb_true_iff in E. destruct E as [E1 E2].
+    rewrite forallb_forall in E1.
+    assert (K : keysok mp).
+    { apply Forall_forall. intros kv I. apply E1 in I. apply andb_true_iff in I. destruct I as [I _].
+      apply andb_true_iff in I. tauto. }
+    split; [exact K|]. split; [|apply keys_distinct_nodup; auto].
+    apply Forall_forall. intros kv I. apply E1 in I. apply andb_true_iff in I. destruct I as [I I2].
+    apply andb_true_iff in I. tauto.
+  Qed.
+
+  Lemma all_in_spec (c : value -> value -> option Z) m2 : forall m1, all_in c m2 m1 = true ->
+    forall k v, In (k, v) m1 -> exists v', m_get m2 k = Some v' /\ c v v' = Some 0%Z.
+  Proof.
+    induction m1 as [|[k1 v1] m1 IH]; simpl; [tauto|].
+    destruct (m_get m2 k1) as [v'|] eqn:G; [|discriminate].
+    destruct (c v1 v') as [d|] eqn:Ec; [|discriminate]. destruct d; try discriminate.
+    intros A k v [E|I]; [injection E as <- <-; eauto|auto].
+  Qed.
+
+  Lemma all_in_intro (c : value -> value -> option Z) m2 : forall m1,
+    (forall k v, In (k, v) m1 -> exists v', m_get m2 k = Some v' /\ c v v' = Some 0%Z) -> all_in c m2 m1 = true.
+  Proof.
+    induction m1 as [|[k1 v1] m1 IH]; simpl; [reflexivity|]. intros A.
+    destruct (A k1 v1 (or_introl eq_refl)) as [v' [G Ec]]. rewrite G, Ec. apply IH. intros; apply A; auto.
+  Qed.
+
+  (* ---------------------------------------------------------------- eq implies equal hash *)
+  Theorem v_eq_hash : forall a b, v_wf a = true -> v_wf b = true -> C a b = Some 0%Z -> H a = H b.
+  Proof.
+    induction a as [z|bts|s|s|p|p|bs|k l IH|k mp IH] using value_ind'; intros b Wa Wb E;
+      try (rewrite v_cmp_scalar in E by reflexivity; apply s_cmp_hash; assumption).
+    - (* sequences: the walk reached both ends with every pair eq *)
+      destruct b as [| | | | | | |k' l'|]; try discriminate.
+      change (C (VSeq k l) (VSeq k' l')) with (walk value value (fun x y => C x y) l l') in E.
+      apply walk_zero in E. rewrite !hash_seq.
+      apply wf_seq in Wa, Wb.
+      revert IH Wa Wb. induction E as [|x y l l' Exy _ IHE]; intros IH Wa Wb; [reflexivity|].
+      inversion IH; inversion Wa; inversion Wb; subst. simpl. f_equal; auto.
+    - (* maps *)
+      destruct b as [| | | | | | | |k' mp']; try discriminate.
+      rewrite !hash_map.
+      destruct (wf_map _ _ Wa) as [Ka [Wma NDa]]. destruct (wf_map _ _ Wb) as [Kb [Wmb NDb]].
+      assert (Walk : walk _ _ (pair_c (fun x y => C x y)) mp mp' = Some 0%Z -> mh mp = mh mp').
+      { intros Ew. apply walk_zero in Ew. clear E NDa NDb Ka Kb Wa Wb.
+        revert IH Wma Wmb. induction Ew as [|x y l l' Exy _ IHE]; intros IH Wma Wmb; [reflexivity|].
+        inversion IH as [|? ? [IHk IHv] IHr]; inversion Wma as [|? ? [Wk Wv] Wr];
+          inversion Wmb as [|? ? [Wk' Wv'] Wr']; subst.
+        apply pair_c_zero in Exy. destruct Exy as [Ek Ev].
+        rewrite !mh_cons. unfold eh. rewrite (IHk _ Wk Wk' Ek), (IHv _ Wv Wv' Ev). f_equal. apply IHE; assumption. }
+      assert (Look : length mp = length mp' -> all_in (fun x y => C x y) mp' mp = true -> mh mp = mh mp').
+      { intros L A. apply match_hash; auto. intros kk v I.
+        destruct (all_in_spec _ _ _ A kk v I) as [v' [G Ec]].
+        assert (Kk : key_ok kk = true) by apply (keysok_in _ _ Ka I).
+        apply m_get_some in G; auto. exists v'. split; [exact G|].
+        rewrite Forall_forall in IH, Wma, Wmb.
+        apply (proj2 (IH _ I)); [apply (Wma _ I) | apply (Wmb _ G) | exact Ec]. }
+      destruct k.
+      + change (C (VMap KTable mp) (VMap k' mp')) with
+          (if tl && (length mp =? length mp') && all_in (fun x y => C x y) mp' mp then Some 0%Z
+           else walk _ _ (pair_c (fun x y => C x y)) mp mp') in E.
+        destruct (tl && (length mp =? length mp') && all_in (fun x y => C x y) mp' mp) eqn:Cd; [|auto].
+        apply andb_true_iff in Cd. destruct Cd as [Cd A]. apply andb_true_iff in Cd. destruct Cd as [_ L].
+        apply Nat.eqb_eq in L. auto.
+      + apply Walk. exact E.
+  Qed.
+
+  (* ---------------------------------------------------------------- reflexivity *)
+  Lemma map_self_zero k k' mp :
+    keysok mp -> NoDup (keys mp) ->
+    Forall (fun kv => C (fst kv) (fst kv) = Some 0%Z /\ C (snd kv) (snd kv) = Some 0%Z) mp ->
+    C (VMap k mp) (VMap k' mp) = Some 0%Z.
+  Proof.
+    intros K ND R.
+    assert (W : walk _ _ (pair_c (fun x y => C x y)) mp mp = Some 0%Z).
+    { apply walk_refl. eapply Forall_impl; [|exact R]. intros kv [R1 R2]. unfold pair_c. rewrite R1. simpl. exact R2. }
+    destruct k; [|exact W].
+    change (C (VMap KTable mp) (VMap k' mp)) with
+      (if tl && (length mp =? length mp) && all_in (fun x y => C x y) mp mp then Some 0%Z
+       else walk _ _ (pair_c (fun x y => C x y)) mp mp).
+    destruct (tl && (length mp =? length mp) && all_in (fun x y => C x y) mp mp); [reflexivity|exact W].
+  Qed.
+
+  Theorem v_cmp_refl : forall a, v_wf a = true -> C a a = Some 0%Z.
+  Proof.
+    induction a as [z|bts|s|s|p|p|bs|k l IH|k mp IH] using value_ind'; intros Wa;
+      try (rewrite v_cmp_scalar by reflexivity; apply s_cmp_refl; [reflexivity|assumption]).
+    - change (C (VSeq k l) (VSeq k l)) with (walk value value (fun x y => C x y) l l).
+      apply walk_refl. apply wf_seq in Wa. rewrite Forall_forall in *. auto.
+    - destruct (wf_map _ _ Wa) as [Ka [Wm ND]]. apply map_self_zero; auto.
+      rewrite Forall_forall in *. intros kv I. destruct (IH _ I), (Wm _ I). auto.
+  Qed.
+
+  Lemma seq_kind_irrelevant k k' l l' : C (VSeq k l) (VSeq k' l') = C (VSeq KArray l) (VSeq KArray l').
+  Proof. reflexivity. Qed.
+
+  (* ---------------------------------------------------------------- copy *)
+  Lemma copy_list_id (l : list value) :
+    Forall (fun x => forall c, v_copy x = Some c -> c = x) l ->
+    forall l', fold_right (fun x acc => match v_copy x, acc with Some y, Some t => Some (y :: t) | _, _ => None end)
+                          (Some []) l = Some l' -> l' = l.
+  Proof.
+    induction 1 as [|x l Hx _ IH]; simpl; intros l' E; [injection E as <-; reflexivity|].
+    destruct (v_copy x) as [y|] eqn:Ey; [|discriminate].
+    destruct (fold_right _ _ l) as [t|] eqn:Et; [|discriminate].
+    injection E as <-. f_equal; auto.
+  Qed.
+
+  Lemma copy_map_id (mp : list (value * value)) :
+    Forall (fun kv => (forall c, v_copy (fst kv) = Some c -> c = fst kv) /\
+                      (forall c, v_copy (snd kv) = Some c -> c = snd kv)) mp ->
+    forall mp', fold_right (fun kv acc => match v_copy (fst kv), v_copy (snd kv), acc with
+                                          | Some k', Some v', Some t => Some ((k', v') :: t) | _, _, _ => None end)
+                           (Some []) mp = Some mp' -> mp' = mp.
+  Proof.
+    induction 1 as [|[k v] mp [Hk Hv] _ IH]; simpl; intros mp' E; [injection E as <-; reflexivity|].
+    simpl in *.
+    destruct (v_copy k) as [k'|] eqn:Ek; [|discriminate].
+    destruct (v_copy v) as [v'|] eqn:Ev; [|discriminate].
+    destruct (fold_right _ _ mp) as [t|] eqn:Et; [|discriminate].
+    injection E as <-. rewrite (Hk _ eq_refl), (Hv _ eq_refl), (IH _ eq_refl). reflexivity.
+  Qed.
+
+  (* in a functional model the copy IS the value; what the theorem says is that the copy exists
+     (everything but Type objects) and that cmp finds a value equal to itself *)
+  Lemma v_copy_id : forall a c, v_copy a = Some c -> c = a.
+  Proof.
+    induction a as [z|bts|s|s|p|p|bs|k l IH|k mp IH] using value_ind'; intros c E;
+      try (injection E as <-; reflexivity); try discriminate.
+    - destruct k; cbn [v_copy] in E;
+        try (destruct (fold_right _ _ l) as [l'|] eqn:El; [|discriminate]; injection E as <-;
+             f_equal; eapply copy_list_id; eauto).
+      injection E as <-. reflexivity.
+    - cbn [v_copy] in E. destruct (fold_right _ _ mp) as [mp'|] eqn:El; [|discriminate]. injection E as <-.
+      f_equal. eapply copy_map_id; eauto.
+  Qed.
+
+  Theorem copy_eq_hash a c : v_wf a = true -> v_copy a = Some c ->
+    C c a = Some 0%Z /\ C a c = Some 0%Z /\ H c = H a.
+  Proof. intros W E. apply v_copy_id in E. subst. repeat split; auto using v_cmp_refl. Qed.
+
+  (* ---------------------------------------------------------------- assign *)
+  Lemma assign_seq k l0 k' l y : v_assign (VSeq k l0) (VSeq k' l) = Some y -> y = VSeq k l.
+  Proof.
+    intros E. destruct k, k'; cbn [v_assign] in E; try discriminate;
+      try (injection E as <-; reflexivity);
+      (destruct (v_copy _) as [v|] eqn:Ec; [|discriminate]; injection E as <-; apply v_copy_id in Ec; exact Ec).
+  Qed.
+
+  Theorem assign_eq_hash dst src y : v_wf src = true -> v_assign dst src = Some y ->
+    H y = H src /\
+    (C y src = Some 0%Z \/ exists p, (y = VBox p /\ src = VRef p) \/ (y = VRef p /\ src = VBox p)).
+  Proof.
+    intros W E. pose proof (v_cmp_refl src W) as R.
+    destruct dst as [z|bts|s|s|p|p|bs|k l0|k mp0], src as [z'|bts'|s'|s'|p'|p'|bs'|k' l|k' mp];
+      try (cbn [v_assign] in E; discriminate); try (destruct k; cbn [v_assign] in E; discriminate);
+      try (cbn [v_assign] in E; injection E as <-; split; [reflexivity|left; exact R]).
+    - cbn [v_assign] in E. injection E as <-. split; [reflexivity|]. right. eauto.
+    - cbn [v_assign] in E. injection E as <-. split; [reflexivity|]. right. eauto.
+    - cbn [v_assign] in E. destruct (length bs =? length bs'); [|discriminate]. injection E as <-. split; [reflexivity|left; exact R].
+    - (* sequences: the result has dst's kind and src's elements *)
+      apply assign_seq in E. subst. split; [reflexivity|left; exact R].
+    - (* maps *)
+      apply v_copy_id in E. subst. split; [reflexivity|left].
+      destruct (wf_map _ _ W) as [Ka [Wm ND]]. apply map_self_zero; auto.
+      rewrite Forall_forall in *. intros kv I. destruct (Wm _ I). auto using v_cmp_refl.
+  Qed.
+
+  Theorem swap_exchanges a b a' b' : v_swap a b = Some (a', b') -> a' = b /\ b' = a.
+  Proof. unfold v_swap. destruct (same_type a b); [|discriminate]. intros E. injection E as <- <-. auto. Qed.
+
+  (* ---------------------------------------------------------------- Table equality is order independent *)
+  Theorem map_perm_eq k k' mp mp' : tl = true -> v_wf (VMap KTable mp) = true -> Permutation mp mp' ->
+    v_wf (VMap k' mp') = true /\ C (VMap KTable mp) (VMap k' mp') = Some 0%Z /\ H (VMap k mp) = H (VMap k' mp').
+  Proof.
+    intros Htl W P. destruct (wf_map _ _ W) as [Ka [Wm ND]].
+    assert (Kb : keysok mp') by (unfold keysok; rewrite <- P; exact Ka).
+    assert (NDb : NoDup (keys mp')) by (unfold keys; rewrite <- P; exact ND).
+    assert (Wb : v_wf (VMap k' mp') = true).
+    { cbn [v_wf]. apply andb_true_iff. split; [|apply nodup_keys_distinct; auto].
+      apply forallb_forall. intros kv I. apply (Permutation_in _ (Permutation_sym P)) in I.
+      rewrite Forall_forall in Wm. destruct (Wm _ I) as [W1 W2]. rewrite (keysok_in _ _ Ka I), W1, W2. reflexivity. }
+    assert (Cz : C (VMap KTable mp) (VMap k' mp') = Some 0%Z).
+    { change (C (VMap KTable mp) (VMap k' mp')) with
+        (if tl && (length mp =? length mp') && all_in (fun x y => C x y) mp' mp then Some 0%Z
+         else walk _ _ (pair_c (fun x y => C x y)) mp mp').
+      replace (tl && (length mp =? length mp') && all_in (fun x y => C x y) mp' mp) with true; [reflexivity|].
+      symmetry. apply andb_true_iff. split;
+        [apply andb_true_iff; split; [exact Htl|rewrite (Permutation_length P); apply Nat.eqb_refl]|].
+      apply all_in_intro. intros kk v I. exists v.
+      rewrite Forall_forall in Wm. split.
+      - apply m_get_in; auto. apply (keysok_in _ _ Ka I). apply (Permutation_in _ P I).
+      - apply v_cmp_refl. apply (Wm _ I). }
+    split; [exact Wb|]. split; [exact Cz|].
+    rewrite !hash_map. rewrite <- (hash_map KTable mp), <- (hash_map k' mp').
+    apply v_eq_hash; auto.
+  Qed.
+End Main.
+
+(* ------------------------------------------------------------------ refutations of the pinned variants *)
 (* D5: with the pinned Float_Hash (raw bit pattern) eq does not imply equal hashes *)
 Lemma float_hash_raw_refuted :
   exists a b, v_wf (VFloat a) = true /\ v_wf (VFloat b) = true /\
               float_cmp a b = 0%Z /\ float_hash false a <> float_hash false b.
 Proof.
   exists 0%N, 9223372036854775808%N. vm_compute. repeat split; discriminate.
+Qed.
+
+(* F5: the pinned Table_Cmp (slot-order walk only) separates two orders of the same bindings *)
+Lemma table_walk_refuted :
+  exists mp mp', v_wf (VMap KTable mp) = true /\ Permutation mp mp' /\
+                 v_cmp false (VMap KTable mp) (VMap KTable mp') <> Some 0%Z.
+Proof.
+  exists [(VInt 7, VInt 1); (VInt 3, VInt 2)], [(VInt 3, VInt 2); (VInt 7, VInt 1)].
+  split; [reflexivity|]. split; [apply perm_swap|]. vm_compute. discriminate.
 Qed.
